@@ -73,10 +73,11 @@ Proof.
   all: erewrite flat_map_ext; [symmetry; apply Hid|]; intros c; rewrite andb_false_r; reflexivity.
 Qed.
 
+Definition nobs (c : chr) : bool := negb (c =? 92).
 Lemma dialect_replaces_no_backslash d fl t :
-  forallb (fun c => negb (c =? 92)) t = true -> apply_repls fl (dialect_replaces d) t = t.
+  forallb nobs t = true -> apply_repls fl (dialect_replaces d) t = t.
 Proof.
-  intros H. rewrite dialect_replaces_charwise.
+  intros H. rewrite dialect_replaces_charwise. unfold nobs in H.
   induction t as [|c t IH]; [reflexivity|].
   cbn [forallb] in H. apply andb_prop in H. destruct H as [H1 H2].
   rewrite flat_map_cons, IH by exact H2. unfold bsc.
